@@ -1000,6 +1000,9 @@ func (t *TableCache) Populate(tableUpdates ovsdb.TableUpdates) error {
 			t.logger.V(5).Info("processing update", "table", table, "uuid", uuid)
 			update := updates.ModelUpdates{}
 			current := tCache.cache[uuid]
+			if row.Old != nil && current == nil {
+				return NewErrCacheInconsistent(fmt.Sprintf("row with uuid %s does not exist", uuid))
+			}
 			err := update.AddRowUpdate(t.dbModel, table, uuid, current, *row)
 			if err != nil {
 				return err
